@@ -3,6 +3,7 @@
 validators (I->S); verdict classes -> VIOLATION lines; evidence."""
 import json
 import os
+import re
 import subprocess
 import time
 
@@ -211,12 +212,41 @@ def simd128_bin(ctx):
         ctx.vehicles_skipped.append({"vehicle": "simd128", "reason": str(e)[:300]})
         return None
 
+SIGNAL_RC = {132: "SIGILL", 134: "SIGABRT", 135: "SIGBUS", 136: "SIGFPE", 139: "SIGSEGV", -4: "SIGILL", -6: "SIGABRT", -7: "SIGBUS", -8: "SIGFPE", -11: "SIGSEGV"}
+
+
+def harness_died(ctx, binp, args, tag, rc, err, classes, env=None):
+    """The harness process itself died while driving the code under test. A Rust panic whose location lies inside the
+    crate under test (the harness's own panics carry harness-relative paths), or a fatal signal, is an observation about
+    the code under test -- data, not a tool error: the same seeded inputs run cleanly on a tree where the property holds.
+    Anything else (usage error, harness bug, missing file) stays a tool error (exit 2)."""
+    err = err or ""
+    locs = re.findall(r"panicked at ([^\s:]+):(\d+)", err)
+    root = os.path.abspath(C.REPO) + os.sep
+    in_crate = [l for l in locs if os.path.abspath(l[0]).startswith(root)]
+    sig = SIGNAL_RC.get(rc)
+    if rc == 101 and in_crate:
+        kinds = {"panic"}
+        msg = [l for l in err.splitlines() if l.strip() and not l.startswith("note:")]
+        what = "harness `%s` died of a panic raised inside the crate at %s:%s: %s" % (args[0], os.path.relpath(in_crate[0][0], root), in_crate[0][1], " | ".join(msg[-2:])[:300])
+    elif sig:
+        kinds = {"panic", "oob", "misaligned"}
+        what = "harness `%s` was killed by %s while driving the crate: %s" % (args[0], sig, " | ".join(err.splitlines()[-2:])[:300])
+    else:
+        raise ToolError("harness %s failed rc=%s: %s" % (args[0], rc, err[-2000:]))
+    obj = {"harness_args": [str(a) for a in args], "env": env or {}, "seed": ctx.seed, "rc": rc, "stderr_tail": err[-1500:]}
+    if kinds & set(classes):
+        ctx.violation("died:%s:%s" % (tag, what[:80]), what, obj)
+    else:
+        ctx.note("%s (decided by another property's check)" % what)
+
 
 def replay_cmd(ctx, binp, cmd, vec, tag, classes, extra=(), env=None):
     args = [cmd, "--in", vec, "--threads", C.NCPU, "--tmp", os.path.join(ctx.dir, "iso_" + tag)] + list(extra)
     rep, rc, err = C.run_harness(ctx, binp, args, tag, env_extra=env)
     if rep is None:
-        raise ToolError("replayer %s failed rc=%s: %s" % (cmd, rc, err[-2000:]))
+        harness_died(ctx, binp, args, tag, rc, err, classes, env)
+        return None
     C.absorb_report(ctx, rep, classes, tag)
     return rep
 
@@ -496,10 +526,13 @@ def c19(ctx):
     # I->S at the real scan cap: recorded needles 0..600 bytes x ranker table, and the whole with_indices matrix for
     # needle lengths {0,1,2,3,254,255,256,600}; TLC (Trace_Pair, PAIRCAP = 255) decides validity and compares with the L-model
     tr = os.path.join(ctx.dir, "pair_trace.ndjson")
-    rep, rc, err = C.run_harness(ctx, binp, ["record-pair", "--trace", tr, "--count", 150 if q else 2000], "rec_pair")
+    rargs = ["record-pair", "--trace", tr, "--count", 150 if q else 2000]
+    rep, rc, err = C.run_harness(ctx, binp, rargs, "rec_pair")
     if rep is None:
-        raise ToolError("recorder failed rc=%s: %s" % (rc, err[-1500:]))
-    n_, viol, summ = C.validate_trace(ctx, "Trace_Pair", tr, sub(K_PAIR, PAIRCAP=255), "pair_trace", max_records=400, par=8)
+        harness_died(ctx, binp, rargs, "rec_pair", rc, err, {"result", "panic", "pair"})
+        n_, viol, summ = 0, [], []
+    else:
+        n_, viol, summ = C.validate_trace(ctx, "Trace_Pair", tr, sub(K_PAIR, PAIRCAP=255), "pair_trace", max_records=400, par=8)
     for (pp, tup) in viol:
         recd = C.record_at(pp, tup[1])
         ctx.violation("pairtrace:%s" % tup[2], "recorded %s: %s" % (
@@ -535,9 +568,11 @@ def c16(ctx):
     # I->S at real constants: random operation histories on real objects, folded through the P-layer object machine by TLC
     for force in ("avx2", "fallback"):
         tr = os.path.join(ctx.dir, "objhist_%s.ndjson" % force)
-        rep, rc, err = C.run_harness(ctx, binp, ["record-obj", "--trace", tr, "--count", 240 if q else 3000, "--force", force], "rec_obj_" + force)
+        rargs = ["record-obj", "--trace", tr, "--count", 240 if q else 3000, "--force", force]
+        rep, rc, err = C.run_harness(ctx, binp, rargs, "rec_obj_" + force)
         if rep is None:
-            raise ToolError("recorder failed rc=%s: %s" % (rc, err[-1500:]))
+            harness_died(ctx, binp, rargs, "rec_obj_" + force, rc, err, {"result", "panic"})
+            continue
         n_, viol, summ = C.validate_trace(ctx, "Trace_Objects", tr, {}, "objhist_" + force, max_records=20 if q else 250, par=12)
         for (pp, tup) in viol:
             recd = C.record_at(pp, tup[1])
@@ -694,9 +729,11 @@ def lib_traces(ctx, family, kinds, group, count, tag, forces=("avx2", "sse2", "f
     binp = C.build_harness()
     for force in forces:
         tr = os.path.join(ctx.dir, "lib_%s_%s.ndjson" % (tag, force))
-        rep, rc, err = C.run_harness(ctx, binp, ["record-lib", "--trace", tr, "--family", family, "--count", count, "--force", force, "--kinds", kinds, "--group", group], "rec_%s_%s" % (tag, force))
+        rargs = ["record-lib", "--trace", tr, "--family", family, "--count", count, "--force", force, "--kinds", kinds, "--group", group]
+        rep, rc, err = C.run_harness(ctx, binp, rargs, "rec_%s_%s" % (tag, force))
         if rep is None:
-            raise ToolError("recorder failed rc=%s: %s" % (rc, err[-1500:]))
+            harness_died(ctx, binp, rargs, "rec_%s_%s" % (tag, force), rc, err, {"result", "panic"})
+            continue
         n, viol, summ = C.validate_trace(ctx, "Trace_Lib", tr, {}, "lib_%s_%s" % (tag, force), max_records=max(200, count // 12), par=12)
         lib_trace_violations(ctx, tr, "recorded@" + force, viol)
         for s_ in summ:
@@ -711,9 +748,11 @@ def iter_traces(ctx, count, ops_filter=None, forces=("avx2", "sse2", "fallback")
     binp = C.build_harness()
     for force in forces:
         tr = os.path.join(ctx.dir, "iterhist_%s.ndjson" % force)
-        rep, rc, err = C.run_harness(ctx, binp, ["record-iter", "--trace", tr, "--count", count, "--force", force], "rec_iter_" + force)
+        rargs = ["record-iter", "--trace", tr, "--count", count, "--force", force]
+        rep, rc, err = C.run_harness(ctx, binp, rargs, "rec_iter_" + force)
         if rep is None:
-            raise ToolError("recorder failed rc=%s: %s" % (rc, err[-1500:]))
+            harness_died(ctx, binp, rargs, "rec_iter_" + force, rc, err, {"result", "panic", "count"})
+            continue
         n, viol, summ = C.validate_trace(ctx, "Trace_MemchrIter", tr, {}, "iterhist_" + force, max_records=max(60, (count * 4) // 12), par=12)
         for (pp, tup) in viol:
             if ops_filter and tup[2] not in ops_filter:
@@ -980,6 +1019,19 @@ def replay(prop, path, seed):
         p = subprocess.run(["timeout", "900", binp, "stress-prefilter-counter"], stdout=subprocess.PIPE, stderr=subprocess.STDOUT, text=True)
         print(p.stdout[-300:])
         if "Err(" in p.stdout or p.returncode != 0:
+            print("VIOLATION property=%s replay=%s" % (prop, path))
+            return 1
+        return 0
+    if "harness_args" in c:
+        # the harness process died (panic inside the crate / fatal signal): run the same seeded command again
+        missing = [a for a in c["harness_args"] if a.startswith("/") and a.endswith(".ndjson") and "--in" in c["harness_args"] and c["harness_args"][c["harness_args"].index("--in") + 1] == a and not os.path.exists(a)]
+        if missing:
+            raise ToolError("the input vectors %s of this run are gone; re-run the check to regenerate them" % missing[0])
+        env = dict(os.environ)
+        env.update(c.get("env") or {})
+        p = subprocess.run(["timeout", "1800", binp] + c["harness_args"] + ["--out", os.path.join(ctx.dir, "again.json"), "--seed", str(c.get("seed", seed))], env=env, stdout=subprocess.PIPE, stderr=subprocess.PIPE, text=True)
+        print(json.dumps({"rc": p.returncode, "stderr_tail": p.stderr[-400:]}))
+        if p.returncode != 0:
             print("VIOLATION property=%s replay=%s" % (prop, path))
             return 1
         return 0
